@@ -19,6 +19,7 @@ import loops as LP
 
 SOLVERS = ['panoc']
 COUNTS = {}
+HUNG = []
 
 # inputs kept from earlier failures, run first
 CORPUS = [
@@ -46,6 +47,7 @@ def bump(k, n=1):
     COUNTS[k] = COUNTS.get(k, 0) + n
 
 
+@C.tolerant
 def sweep_ops(rng, exe, n_problems, solver='panoc'):
     """Exhaustive stop injection on fixed runs: stop() from inside every problem / direction call
     (event index 1…T, checks/c03.sweep_ops) *and* from inside every progress callback (1…#callbacks)."""
@@ -53,7 +55,11 @@ def sweep_ops(rng, exe, n_problems, solver='panoc'):
     for _ in range(n_problems):
         base = LP.LOOPS[solver]['gen_run'](rng, solver=solver, stop=False, maxiter=rng.choice([2, 3, 4]),
                                            nanat=0, oot=0, trace=0, tol=C.f2h(1e-12))
-        out, rc, err = C.run_lines(exe, [base.line()])
+        try:
+            out, rc, err = C.run_lines(exe, [base.line()], timeout=30)
+        except subprocess.TimeoutExpired:
+            HUNG.append(base.line())
+            continue
         if rc != 0 or not out:
             continue
         r = S.parse_out(out[0])
@@ -243,9 +249,12 @@ def main(argv):
         ops = [LP.LOOPS['panoc']['gen_run'](rng, solver='panoc', nanat=0).line() for _ in range(n)]
         if exe:
             ops += sweep_ops(rng, exe, 8 if tier == 'quick' else 60)
+        ops, _, hung = LP.prescreen(exe, ops)
+        HUNG.extend(hung)
         return ops
 
     def extra(rep, broken, exe_, tier_):
+        LP.report_hung(rep, HUNG, 'PANOC')
         thread_stage(rep, broken, exe_, tier_)
         rep.cov['monitor_counts'] = dict(sorted(COUNTS.items()))
         rep.note('monitor coverage: ' + ', '.join(f'{k}={v}' for k, v in sorted(COUNTS.items())))
